@@ -104,12 +104,10 @@ theorem un_has (a : String) : Un (.has · a) (fun env r => hasSem env r a) :=
 
 /-! ## the shapes of `tryPartial` -/
 
-theorem whole_ign {p : PR} (h : p.whole = .ign) : p = .ign := by
-  cases p with
-  | ok e =>
-    cases e <;> simp only [PR.whole] at h <;> try (cases h; done)
-    split at h <;> cases h
-  | _ => first | rfl | cases h
+/-- `PR.whole` never turns `errIgnore` into something else (it may turn a literal that contains the ignore marker
+    INTO `errIgnore`: then nothing is claimed) -/
+theorem whole_ne_ign {p : PR} (h : p.whole ≠ .ign) : p ≠ .ign := by
+  intro hp; subst hp; exact h rfl
 
 theorem combine1_indep {mk : Expr → Expr} {sem : Env → Res → Res} (U : Un mk sem) {env1 env2 : Env}
     (hent : env1.entities = env2.entities) {e : Expr} {p : PR} {ev : Expr → EvR}
@@ -231,7 +229,7 @@ theorem isInStep_indep {γ : Value → Value} [Completion γ] {envH env1 env2 : 
             apply hne
             have hty' : (ty' != ty) = false := by simpa using hty
             simp only [isInStep, hty', Bool.false_eq_true, if_false]
-            simp only [PR.whole]
+            simp only [PR.whole, Value.ignInside, Bool.false_eq_true, if_false]
             split <;> rfl
         | _ =>
           obtain ⟨v1, e1, n1⟩ := lit_nonentity_eval hs1 (by intro ty id hb; cases hb)
